@@ -487,6 +487,10 @@ def gen_request(rng, sim, known_etags):
             dst_c = src_c if rng.random() < 0.5 else rng.choice(store + [{"path": rng.choice(COLLS[1:6]), "items": []}])
             others = [i["href"] for i in dst_c["items"] if not i["href"].startswith("#") and (dst_c is not src_c or i["href"] != src_i["href"])]
             href = rng.choice(others) if others and rng.random() < 0.65 else rng.choice(HREFS)
+            if rng.random() < 0.25:
+                # onto itself: nothing is to happen, with or without Overwrite
+                return {"method": "MOVE", "path": list(src_c["path"]) + [src_i["href"]], "dest": list(src_c["path"]) + [src_i["href"]],
+                        "overwrite": rng.random() < 0.8}
             return {"method": "MOVE", "path": list(src_c["path"]) + [src_i["href"]], "dest": list(dst_c["path"]) + [href],
                     "overwrite": rng.random() < 0.65}
         dst = rng.choice(COLLS[1:6]) + [rng.choice(HREFS)] if rng.random() < 0.9 else rng.choice(COLLS)
